@@ -244,7 +244,7 @@ impl<T: Qcow2IoOps> Qcow2Dev<T> {
     /// Zero one new metadata cluster and clear its `new` mark, unless
     /// someone else has done or is doing that, so that slices of this
     /// cluster can be written in place from now on
-    async fn settle_new_meta_cluster(&self, host_off: u64) -> Qcow2Result<()> {
+    pub(crate) async fn settle_new_meta_cluster(&self, host_off: u64) -> Qcow2Result<()> {
         let info = &self.info;
         let key = host_off >> info.cluster_bits();
 
